@@ -1,6 +1,6 @@
 """C01 - Annex B framing is invariant under push chunking and equals the start-code segmentation."""
 from vlib.bitgen import hx, all_partitions
-from vlib.annexb_util import parse_trace, units_of, all_strings, segment
+from vlib.annexb_util import parse_trace, units_of, all_strings, segment, big_scripts, big_check
 
 ID = "C01"
 RULE = ("exhaustive: every byte string up to length L over {00,01,02} x every partition into non-empty pushes, with "
@@ -149,6 +149,9 @@ def gen(tier, rng):
         if len(s) > (1 << 21):
             continue
         cases.append("!annexb " + ops_of(boundary_partition(rng, s, marks), True))
+    # streams described by sizes (units to 16 MiB, zero padding to 64 KiB): implementation only, against the segmentation
+    for sc in big_scripts(rng, tier):
+        cases.append("!annexbig F " + sc)
     # zero padding of every length up to 300 before a unit, in one push and cut after two zeros
     for z in range(0, 300 if tier == "quick" else 1100):
         s = b"\x00" * z + b"\x01\x65\x88" + b"\x00" * (z % 5) + b"\x00\x00\x01\x41\x9a"
@@ -160,6 +163,8 @@ def gen(tier, rng):
 
 
 def canon(case, ans):
+    if case.lstrip("!").startswith("annexbig"):
+        return ans
     ops = parse_trace(ans)
     units, rem = units_of(ops)
     return "units=%s open=%s" % (",".join(u or "-" for u in units), rem or "-")
@@ -176,6 +181,9 @@ def stream_of(case):
 
 def extra_check(r):
     """independent oracle: after a final reset the implementation's units are the segmentation of the whole stream"""
+    if r["case"].lstrip("!").startswith("annexbig"):
+        d = big_check(r["case"], r["dev"])
+        return ("value", d) if d else None
     data, has_reset = stream_of(r["case"].lstrip("!"))
     if not has_reset or "r" in r["case"].split()[1].split(",")[:-1]:
         return None
@@ -187,11 +195,15 @@ def extra_check(r):
 
 
 def nontrivial(r):
+    if r["case"].lstrip("!").startswith("annexbig"):
+        return True
     data, _ = stream_of(r["case"].lstrip("!"))
     return b"\x00\x00\x01" in data
 
 
 def classify(r):
+    if r["case"].lstrip("!").startswith("annexbig"):
+        return ["annexbig"]
     data, rs = stream_of(r["case"].lstrip("!"))
     k = ["len<=%d" % (8 if len(data) <= 8 else 64 if len(data) <= 64 else 1024 if len(data) <= 1024 else 16384 if len(data) <= 16384 else 9999999)]
     k.append("units=%d" % min(4, len(segment(data))))
